@@ -619,8 +619,10 @@ fn build(_prop: &str, tier: &str) -> Fonts {
         }
         // fonts whose glyph data ends around the 64 KiB a 16 bit offset reaches: every number of maximal glyphs (refused, or read back)
         for n in 40..=94usize {
-            let glyphs = (0..n).map(|i| GlyphSpec { ch: b'!' + i as u8, w: 30, h: 12, style: (i % 4) as u8 }).collect();
-            jobs.push(Job::Tdf(vec![TdfSpec { name: "edge".into(), ty, spaces: 1, glyphs }], format!("{n} glyphs of 30x12")));
+            for (w, style) in [(30usize, 0u8), (30, 1), (29, 0), (27, 2)] {
+                let glyphs = (0..n).map(|i| GlyphSpec { ch: b'!' + i as u8, w, h: 12, style }).collect();
+                jobs.push(Job::Tdf(vec![TdfSpec { name: "edge".into(), ty, spaces: 1, glyphs }], format!("{n} glyphs of {w}x12, row style {style}")));
+            }
         }
         // the biggest fonts: 94 glyphs of the maximal size (colour fonts exceed the 16 bit offsets)
         for (w, h) in [(30usize, 12usize), (30, 11), (29, 12), (20, 12), (30, 6)] {
